@@ -575,6 +575,9 @@ class C17(Property):
     res.counters["sim-time-units"] += sched.steps     # incl. clock jumps
     res.counters["sim-device-milliseconds"] += int(frames * 1000 / 44100)
     self._probes(res, sched, world, ctl, workload)
+    if getattr(self, "_judge_probes", {}).get("writes-after-stop"):
+      res.counters["probe.chunk-in-flight-when-stop-returned"] += 1
+    self._judge_probes = {}
     res.steps = sched.work
     res.digest = digest_events(sched.events)
     ikey = stable_hash(tuple(sched.interleaving))
@@ -624,6 +627,7 @@ class C17(Property):
   # ------------------------------------------------------------------ oracle
   def judge(self, workload, specs, ctl, world, outcome, sched):
     V = Violation
+    res_probe = self._judge_probes = {}
     for st in world.streams:
       if st.write_while_stopped:
         return V("device-protocol", "write-on-stopped-stream",
@@ -689,6 +693,18 @@ class C17(Property):
                  "player%d delivered %d of %d samples although never stopped "
                  "(wait=%r)" % (p, len(decoded), len(whole),
                                 workload["wait"]))
+      mark = getattr(th, "_stop_returned_at", None)
+      if mark is not None:
+        late = sum(1 for sq, k, sid, _ in hist
+                   if k == "write" and sid == st.sid and sq >= mark)
+        if late > 2:
+          # after stop() has returned the player may finish the chunk in
+          # flight and at most the one it had already decided to write
+          return V("not-prompt", "chunks-written-after-stop-returned",
+                   "player%d wrote %d more chunks after stop() had returned "
+                   "(device event %d)" % (p, late, mark))
+        if late:
+          res_probe["writes-after-stop"] = True
       if st.write_after_close:
         return V("device-protocol", "write-after-close",
                  "player%d wrote %d chunks after its stream was closed"
